@@ -18,6 +18,7 @@ MInit ==
   /\ cur = [w \in W |-> IF w = 0 THEN 1 ELSE 0]
   /\ th = [d \in D |-> IF d = 1 THEN [NoTh EXCEPT !.st = "ready", !.pc = User, !.tag = 0] ELSE NoTh]
   /\ tg = [t \in Tag |-> IF t = 0 THEN [NoTg EXCEPT !.d = 1, !.hs = "main", !.ran = 1] ELSE NoTg]
+  /\ mx = mx0 /\ sq = sq0 /\ ob = ob0 /\ gh = gh0
 
 \* the program: a running thread at user level may make any API call that is legal for it
 NextTag == CHOOSE t \in Tag : tg[t].hs = "none" /\ \A u \in Tag : tg[u].hs = "none" => t <= u
@@ -53,6 +54,8 @@ LibStep(w) ==
   \/ \E k \in 1..6 : CbEnter(w, k, 0)
   \/ CbExit(w) \/ ThreadEntry(w, 0)
   \/ \E t \in Tag : UBodyStart(w, t, 7700 + t) \/ UYieldRet(w, t)
+  \/ \E t \in D, o \in 0..4 : YieldBeg(w, t, o)
+  \/ \E t \in D : YieldEnd(w, t)
   \/ \E t, j \in D : FinWaiter(w, t, j) \/ JoinSet(w, t, j)
   \/ \E s \in S, k \in {0, 2} : StackFree(w, w, s, k, IF k = 2 THEN 17 ELSE 0)
   \/ \E t \in D, b \in {0, 1} : FinDet(w, t, b) \/ DetachQuick(w, t, b) \/ DetachChk(w, t, b)
